@@ -46,6 +46,11 @@ def gen_cases(tier):
     maxterms = 2 if tier == "quick" else 3
 
     def it():
+        if tier == "quick":
+            # three-term models made of high-degree monomials only (ancilla reuse across terms needs three terms)
+            for D in gen.polys(N, 3, (1, -2), mindeg=3, minterms=3):
+                for typ in ("PUBO", "PUSO"):
+                    yield {"poly": rp.jdict(D), "type": typ, "scheme": QUICK_SCHEME[typ], "constraint": 0}
         for D in gen.polys(N, maxterms, COEFS, minterms=1, need_deg=3):
             nt = len(D)
             for typ in TYPES:
@@ -115,6 +120,11 @@ def check(case, st):
             pair_opts = [None]
             if pk == "default":
                 pair_opts += [[p] for p in model_pairs[:6]] + [[(mlabels[0], "unknown-label")]]
+                # two disjoint pairs at once: forces two reductions whose ancillas are created in an order
+                # that differs from the order in which a later term meets them
+                if len(mlabels) >= 4:
+                    a_, b_, c_, d_ = mlabels[:4]
+                    pair_opts += [[(a_, b_), (c_, d_)], [(a_, c_), (b_, d_)], [(a_, d_), (b_, c_)], [(b_, c_), (a_, d_)]]
             for pairs in pair_opts:
                 lam = penalty(pk, total)
                 kw = {}
@@ -206,7 +216,8 @@ def check(case, st):
 
 def run(ctx):
     ctx.bounds = {"n": N, "coefs": COEFS, "max_terms": 2 if ctx.quick else 3, "types": TYPES, "targets": [list(t) for t in targets()],
-                  "penalties": PENALTIES, "pairs": "none; with the default penalty also each single pair of model variables and a pair with an unknown label",
+                  "penalties": PENALTIES, "pairs": "none; with the default penalty also each single pair of model variables, a pair with an unknown label, and 4 sets of two disjoint pairs",
+                  "quick_extra": "all 3-term models of monomials of degree >= 3 over {1,-2} as PUBO/PUSO",
                   "schemes": QUICK_SCHEME if ctx.quick else "all six for <=2 terms, one per type for 3 terms", "max_ancillas": MAX_ANC,
                   "pc_constraints": "none / sum<=1 (no ancilla)" + ("" if ctx.quick else " / slack constraint whose ancilla is a model variable")}
     ctx.rule = "case = (polynomial with a term of degree>=3, type, label scheme, recorded constraint); every target x penalty x pairs inside; all are non-trivial"
